@@ -19,6 +19,13 @@ FLAVOURS = {'adapter': AdapterRegistry, 'verifying': VerifyingAdapterRegistry}
 SENT = object()
 
 
+class FalsyStr(str):
+    """A registered value that is falsy: only None means 'no registration'."""
+
+    def __bool__(self):
+        return False
+
+
 def mk(n, *b):
     return InterfaceClass(n, b or (Interface,), {'__module__': wmod()})
 
@@ -86,7 +93,7 @@ def build(h, flavour, layout, entries):
     contents = []
     for j, (k, place) in enumerate(entries):
         req, p, nm = k
-        val = 'v%d' % j
+        val = FalsyStr('v%d' % j) if j % 2 == 0 else 'v%d' % j
         regs[place].register([h.req[r] for r in req], h.prov[p], nm, val)
         contents.append((place, tuple(h.req[r] for r in req), h.prov[p], nm, val))
     ro_index = {0: 0, 1: 1} if layout == 'chain' else {0: 0, 1: 1, 2: 2}
